@@ -54,12 +54,20 @@ Ord == 1..MaxI
 Src(a) == Assocs[a].src
 Tgt(a) == Assocs[a].tgt
 AttrNames(c) == [i \in DOMAIN Attrs[c] |-> Attrs[c][i].n]
-AttrType(c, n) == LET i == CHOOSE j \in DOMAIN Attrs[c] : Attrs[c][j].n = n IN Attrs[c][i].t
+\* (the tables below are constant-level and without parameters: TLC evaluates each once, which matters for schemas
+\* with dozens of classes and associations - the ooaofooa parts of C11)
+AttrTypeF == [c \in ClassSet |-> [n \in {Attrs[c][j].n : j \in DOMAIN Attrs[c]} |->
+                 LET i == CHOOSE j \in DOMAIN Attrs[c] : Attrs[c][j].n = n IN Attrs[c][i].t]]
+AttrType(c, n) == IF c \in ClassSet /\ n \in DOMAIN AttrTypeF[c] THEN AttrTypeF[c][n]
+                  ELSE LET i == CHOOSE j \in DOMAIN Attrs[c] : Attrs[c][j].n = n IN Attrs[c][i].t
 \* referential attributes of class c (source keys of an association formalised by c)
-RefAttrs(c) == UNION {Rng(Assocs[a].skeys) : a \in {b \in AIdx : Src(b) = c}}
+SrcAssocsF == [c \in ClassSet |-> {b \in AIdx : Src(b) = c}]
+RefAttrsF == [c \in ClassSet |-> UNION {Rng(Assocs[a].skeys) : a \in SrcAssocsF[c]}]
+RefAttrs(c) == RefAttrsF[c]
 \* identifying attributes: members of a unique identifier or referred to by an association
-IdAttrs(c) == UNION ({Rng(Uniques[c][k].attrs) : k \in DOMAIN Uniques[c]} \cup
-                     {Rng(Assocs[a].tkeys) : a \in {b \in AIdx : Tgt(b) = c}})
+IdAttrsF == [c \in ClassSet |-> UNION ({Rng(Uniques[c][k].attrs) : k \in DOMAIN Uniques[c]} \cup
+                                       {Rng(Assocs[a].tkeys) : a \in {b \in AIdx : Tgt(b) = c}})]
+IdAttrs(c) == IdAttrsF[c]
 Live(c) == Rng(pool[c])
 IsLive(c, i) == i \in Live(c)
 Index(q, x) == CHOOSE i \in DOMAIN q : q[i] = x
@@ -80,7 +88,7 @@ Default(t) == CASE t = "BOOLEAN" -> "b:0" [] t = "INTEGER" -> "i:0" [] t = "REAL
 RECURSIVE Read(_, _, _)
 Read(c, i, n) ==
     IF n \in RefAttrs(c) THEN
-        LET cand == {a \in AIdx : Src(a) = c /\ InSeq(n, Assocs[a].skeys) /\ bwd[a][i] # <<>>}
+        LET cand == {a \in SrcAssocsF[c] : InSeq(n, Assocs[a].skeys) /\ bwd[a][i] # <<>>}
         IN IF cand = {} THEN "unset"
            ELSE LET a == CHOOSE x \in cand : \A y \in cand : y <= x
                     k == Index(Assocs[a].skeys, n)
@@ -108,7 +116,8 @@ GenId(k) == IF GenKind = "user" THEN UserIds[k] ELSE IdTok(k)
 (* New(c, pos, kw): defaults by type for every non-referential attribute (unique *)
 (* ids drawn from the generator in attribute order), then positional values,    *)
 (* then keyword values.  Referential arguments are handled by NewRef.           *)
-NonRef(c) == SelectSeq(AttrNames(c), LAMBDA n : n \notin RefAttrs(c))
+NonRefF == [c \in ClassSet |-> SelectSeq(AttrNames(c), LAMBDA n : n \notin RefAttrs(c))]
+NonRef(c) == NonRefF[c]
 IdSlots(c) == SelectSeq(NonRef(c), LAMBDA n : AttrType(c, n) = "UNIQUE_ID")
 KnownType(t) == t \in {"BOOLEAN", "INTEGER", "REAL", "STRING", "UNIQUE_ID"}
 \* the attributes before the first one of unknown type get their defaults, so
@@ -271,7 +280,9 @@ Upto(n) == [i \in 1..n |-> i]
 RowOfInst(c, i) == [c |-> c, v |-> [n \in Rng(AttrNames(c)) |-> Read(c, i, n)]]
 
 LoadBuild(rows, g2) ==
-    LET R(c) == RowsOf(c, rows) IN
+    \* (Rf is evaluated once per step; an operator with a parameter would be evaluated again at every use)
+    LET Rf == [c \in ClassSet |-> RowsOf(c, rows)]
+        R(c) == Rf[c] IN
     /\ \A c \in ClassSet : Len(R(c)) <= MaxI
     /\ pool' = [c \in ClassSet |-> Upto(Len(R(c)))]
     /\ born' = [c \in ClassSet |-> Len(R(c))]
@@ -294,7 +305,8 @@ LoadBuild(rows, g2) ==
 (* takes part with the values it reads (referential values through its links), so  *)
 (* existing links stay, and new links are added after them in pool order.          *)
 LoadInto(rows, g2) ==
-    LET R(c) == RowsOf(c, rows)
+    LET Rf == [c \in ClassSet |-> RowsOf(c, rows)]
+        R(c) == Rf[c]
         pool2(c) == pool[c] \o [k \in 1..Len(R(c)) |-> born[c] + k]
         RowAt(c, i) == IF i <= born[c] THEN RowOfInst(c, i) ELSE R(c)[i - born[c]]
     IN /\ \A c \in ClassSet : born[c] + Len(R(c)) <= MaxI
